@@ -36,6 +36,9 @@ StepPair(e) ==
 StepPoly(e) ==
   /\ e.ev = "poly"
   /\ Report(e.case, PolyFails(e.v, e.segs, e.pts, e.pix, e.dm), [v |-> e.v, off |-> e.off])
+  /\ (IF Len(e.proto) = 2
+      THEN Report(e.case, SeqProtoFails(e.pts, e.proto[1]) \cup SeqProtoFails(e.pix, e.proto[2]), [v |-> e.v, off |-> e.off, what |-> "iterator_protocol"])
+      ELSE TRUE)
   /\ DriftPoly(e)
 \* a library call of this case panicked: the property promises a result for every input of its domain
 StepPanic(e) == e.ev = "panic" /\ Report(e.case, {"library_call_panicked"}, [msg |-> e.msg, loc |-> e.loc])
